@@ -140,6 +140,7 @@ static const char *strs[] = {"0", "1", "-1", "42", " 42", "\t\n 42", "+42", "42a
                              /* subnormal and boundary doubles spelled as text (strtod reports ERANGE for inexact tiny results, yet the value exists) */
                              "1e-310", "-1e-310", "3e-320", "4.9406564584124654e-324", "-4.9406564584124654e-324", "2.2250738585072009e-308",
                              "2.2250738585072014e-308", "1.7976931348623157e308", "-1.7976931348623157e308", "1.7976931348623159e308", "2.4703282292062327e-324",
+                             "\t-1", "\n-5", " \t-1", "\v-9223372036854775808", "\r-0", "\f-18446744073709551615", "\t+7", "\t 7", "- 1", "-\t1",
                              "1e-5", "0.1", "123456789.125", "-0.0", "1E2", "1e+2", " 1.5", "1.5 ", "1.5x", "inf", "-inf", "nan", "0x1p-1074", "1e-323"};
 
 static void int_inc(json_object *o, int64_t inc, int neg, uint64_t mag, const char *store)
